@@ -88,6 +88,33 @@ def has(d, k):
     return k in d
 
 
+def content(f):
+    """Bytes of a file-like object / list (native twin of the ghost view)."""
+    if hasattr(f, "getvalue"):
+        return f.getvalue()
+    return list(f)
+
+
+def elems(x):
+    return list(x)
+
+
+def fpos(f):
+    return f.tell()
+
+
+def flen(f):
+    return len(f.getvalue())
+
+
+def length(x):
+    return len(x)
+
+
+def field(obj, name):
+    return getattr(obj, name)
+
+
 pow2 = SPEC_NATIVE["pow2"]
 blen = SPEC_NATIVE["blen"]
 bitof = SPEC_NATIVE["bitof"]
@@ -194,7 +221,7 @@ class Contract(object):
             self.raises.append((name, None, _parse(cond) if cond else None))
         self.raises_exact = g("raises_exact", False)
         self.trusted = g("trusted", None)  # reason string: contract assumed, body not verified
-        self.hints = g("hints", {})
+        self.ghost = {k: [_parse(x) for x in v] for k, v in g("ghost", {}).items()}
         self.properties = g("properties", [])
 
     def resolve_classes(self):
